@@ -4,7 +4,8 @@
    order - the loop under every schedule is such a sequence (impl_loop_iteration_steps).  [is_fault s = None]: no assert of the
    code has failed so far (impl_no_fault: holds for every state reachable in a build). *)
 From LLB Require Import Engine.Rules Engine.Spec Engine.Impl.
-From LLB Require Import Engine.ImplProofs Engine.ImplProofsMono Engine.ImplProofsLoop Engine.ImplProofsInv9 Engine.ImplProofsStall.
+From LLB Require Import Engine.ImplProofs Engine.ImplProofsMono Engine.ImplProofsLoop Engine.ImplProofsInv9 Engine.ImplProofsStall Engine.ImplProofsRun Engine.ImplProofsExamples.
+From LLB Require Import Engine.Exec.
 From LLB Require Engine.FindCycle.
 Local Open Scope N_scope.
 
@@ -75,3 +76,28 @@ Theorem impl_done_quiescent : forall rules env F ord syncp s0 root s fuel comps 
   loop_iteration rules env F ord syncp fuel s comps = (s', StDone) -> quiescent s'.
 Proof. exact done_quiescent. Qed.
 Print Assumptions impl_done_quiescent.
+
+(* the same for a whole build: BuildEngine::build returned a value and no assert failed => quiescent, so the next build is again
+   covered by in_build (induction over the iterations of executeTasks, every schedule) *)
+Theorem impl_build_done_quiescent : forall rules env F ord syncp fuel pfuel s0 root sched sf m,
+  quiescent s0 -> ibuild rules env F ord syncp fuel pfuel s0 root sched = (RDone sf, m) -> is_fault sf = None -> quiescent sf.
+Proof. exact build_done_quiescent. Qed.
+Print Assumptions impl_build_done_quiescent.
+
+(* REFUTED (full strength of impl_stall_no_dead_end, without "the requested key is unfinished"): the requested key 4 completes and
+   discovers the derived key 5 that must follow itself; the engine stalls with the graph 5>5, which has a dead end at 4, and
+   reports the EMPTY cycle (known finding C07 disc-cycle-empty-list; replayed on the implementation by harness/py/props/impl.py) *)
+Theorem impl_stall_no_dead_end_refuted :
+  exists rules env root s g,
+    fst (ibuild rules env mixF (fun _ => [RReq; RSingle; RFollow]) (fun _ => true) 200 200 init_istate root [])
+      = RCycle s g (FindCycle.FcDone []) /\ ~ FindCycle.no_dead_end g root.
+Proof. exact stall_no_dead_end_refuted. Qed.
+Print Assumptions impl_stall_no_dead_end_refuted.
+
+(* REFUTED for the code before commit e39d106 (stall test on the requested rule only, Impl.ibuild_v0): a build returns success from a
+   quiescent engine and leaves rules IsScanning (the implementation then crashed in the next build) *)
+Theorem impl_done_quiescent_v0_refuted :
+  exists rules env s0 root s,
+    quiescent s0 /\ fst (ibuild_v0 rules env mixF (fun _ => [RReq; RSingle; RFollow]) (fun _ => true) 200 200 s0 root []) = RDone s /\ ~ quiescent s.
+Proof. exact done_quiescent_v0_refuted_ex. Qed.
+Print Assumptions impl_done_quiescent_v0_refuted.
